@@ -3,7 +3,7 @@ execution over all short histories.
 
 Two evaluators (the master `ode` and a non-master one) are registered on an abstract model object by
 interpreting the real `add_func`; then every history of length <= 4 over
-    {evaluate ode, evaluate the other one, modify the model definition, change parameter values}
+    {evaluate ode, evaluate the other one, modify the model definition, add a parameter, assign parameter values}
 is played against the registered closures (interpreted from their source).  The symbolic generator returns a
 token naming the *current* definition, the compile back-end returns a function that records what it was
 compiled from, `_getEvalParam` reads the parameter values current at call time.  After every step each
@@ -50,7 +50,7 @@ def run_histories(repo, cls, names=("ode", "jacobian"), otypes=(None, "mat"), ma
     add_func = repo.resolve_method(cls, "add_func")
     if add_func is None:
         raise AnalysisError("add_func vanished")
-    ops = ["eval:" + names[0], "eval:" + names[1], "modify", "params"]
+    ops = ["eval:" + names[0], "eval:" + names[1], "modify", "params", "add-parameter"]
     bad, n = [], 0
     for L in range(1, maxlen + 1):
         for hist in itertools.product(ops, repeat=L):
@@ -66,8 +66,8 @@ def run_histories(repo, cls, names=("ode", "jacobian"), otypes=(None, "mat"), ma
 
 
 def play(repo, cls, add_func, names, otypes, hist):
-    world = {"gen": 0, "params": 0}
-    me = Obj("Model", verbose=False, _isDifficult=False, _sp=Tok("symbols"))
+    world = {"gen": 0, "params": 0, "lists": 0}
+    me = Obj("Model", verbose=False, _isDifficult=False, _sp=Tok("symbols-of-lists-0"))
     me.attrs["_hasNewTransition"] = Canary(list(names))
     sc = Obj("SC")
     me.attrs["_SC"] = sc
@@ -78,7 +78,9 @@ def play(repo, cls, add_func, names, otypes, hist):
 
     def eval_param(me_, state, time, parameters=None):
         return ("args", state, time, "params@%d" % world["params"])
-    summ = {"SC.compileExprAndFormat": compile_, "Model._getEvalParam": eval_param,
+    def set_sp(me_):
+        me_.attrs["_sp"] = Tok("symbols-of-lists-%d" % world["lists"])     # the symbol order is a function of the current state / parameter lists
+    summ = {"SC.compileExprAndFormat": compile_, "Model._getEvalParam": eval_param, "Model.set_sp": set_sp,
             "types.MethodType": lambda f, o: ("boundclosure", f, o), "functools.partial": lambda f, *a: ("boundclosure", f, a[0]) if len(a) == 1 else None,
             "print": lambda *a, **k: None}
 
@@ -102,8 +104,13 @@ def play(repo, cls, add_func, names, otypes, hist):
         if op == "modify":
             world["gen"] += 1
             me.attrs["_hasNewTransition"].trip()       # what every mutator does (decided separately by R-TRIP)
+        elif op == "add-parameter":
+            world["lists"] += 1                         # param_list setter: a new symbol joins the lists, the definition changes with it,
+            world["gen"] += 1                           # the flags are tripped - and nothing else happens (the symbol order is not rebuilt there)
+            me.attrs["_hasNewTransition"].trip()
         elif op == "params":
-            world["params"] += 1                        # the setter rebuilds the value list; no recompilation is needed for that
+            world["params"] += 1                        # the setter rebuilds the value list and the symbol order; no recompilation is needed for that
+            set_sp(me)
         else:
             nm = op.split(":")[1]
             i = names.index(nm)
@@ -113,7 +120,7 @@ def play(repo, cls, add_func, names, otypes, hist):
                 got = ab.apply(me.attrs[nm], [x, t], {})
             except Raised as r:
                 return "step %d: evaluating %s raises %s" % (step + 1, nm, r.exc)
-            want = ("value", ("compiled", Tok("%s-of-definition-%d" % (nm, world["gen"])), Tok("symbols"), otypes[i]),
+            want = ("value", ("compiled", Tok("%s-of-definition-%d" % (nm, world["gen"])), Tok("symbols-of-lists-%d" % world["lists"]), otypes[i]),
                     ("args", x, t, "params@%d" % world["params"]))
             if got != want:
                 return "step %d: %s(x, t) returns %s, a freshly built model of the current definition returns %s" % (step + 1, nm, _show(got), _show(want))
